@@ -70,8 +70,8 @@ theorem lww_congr_set (A B : List Op) (k : Nat) (h1 : ∀ o ∈ A, o ∈ B) (h2 
 
 theorem lt_of_dts_lt (a b : Nat) (ha : ValidStamp a) (hb : ValidStamp b) (h : dts a < dts b) : a < b := by
   rw [lt_iff_lex]
-  obtain ⟨_, ha2, _⟩ := ha
-  obtain ⟨_, hb2, _⟩ := hb
+  obtain ⟨_, ha2⟩ := ha
+  obtain ⟨_, hb2⟩ := hb
   unfold dts partsAsDuration at h
   omega
 
